@@ -1,10 +1,13 @@
 SPECIFICATION MCSpec
 CONSTANTS
-  VS <- VS_T
+  XS <- XS_Q
+  FB <- FB_Q
+  RS <- RS_Q
   ParamSet <- PS_Q
   MaxSteps = 3
   MaxRuns = 2
   EmitLen = 4
-INVARIANTS CountsOK IntervalOK TotalOK
+VIEW View
+INVARIANTS FollowsIntegrator AtomsFeelSpring Bounded NoDrift
 \* vacuity: on
 CHECK_DEADLOCK FALSE
